@@ -33,6 +33,7 @@ class Setup:
         self.collecting = collecting
         self.seed = seed
         self.node_name = node_name          # "sym_foreign": symbolic element name constrained to be unknown
+        self.both_modes = False             # run fail-fast first, then collecting, in one encoding (C04)
 
 
 def _rule_parts(rule_name):
@@ -117,12 +118,30 @@ def run(setup, max_paths=3000, budget_s=120):
                 k._parent = n
                 kids.append(k)
         n._children = kids
-        errs = GuardedLog(it) if setup.collecting else None
-        if setup.element is not None or setup.node_name == "sym_foreign":
-            it.call(validate.node, [n, errs], {})
-        else:
-            it.call(R.Rule(rn).validate_rule, [n, errs], {})
-        return {"errs": errs, "A": A}
+        if setup.node_name == "sym_foreign":
+            for k in R.node_mappings:
+                it.intern.code(k)
+            it.solver.add(zand(*[h["nodename"].z != it.mkint(it.intern.code(k)) for k in R.node_mappings]))
+        marks = {}
+
+        def call(errs):
+            if setup.element is not None or setup.node_name == "sym_foreign":
+                it.call(validate.node, [n, errs], {})
+            else:
+                it.call(R.Rule(rn).validate_rule, [n, errs], {})
+        if setup.both_modes:
+            from metapype.eml.exceptions import MetapypeRuleError
+            call(None)
+            marks["ff_normal"] = it.g
+            marks["ff_family"] = zor(*[g for g, e in it.sinks[0] if isinstance(e, MetapypeRuleError)])
+            marks["ff_foreign"] = zor(*[g for g, e in it.sinks[0] if not isinstance(e, MetapypeRuleError)])
+            h["ff_foreign_types"] = sorted({type(e).__name__ for g, e in it.sinks[0] if not isinstance(e, MetapypeRuleError)})
+            it.g = it.pc if it.forking else z3.BoolVal(True)
+            it.sinks[0] = []
+            it.tick += 1
+        errs = GuardedLog(it) if (setup.collecting or setup.both_modes) else None
+        call(errs)
+        return {"errs": errs, "A": A, "marks": marks, "node": n}
     view = pathwise.run(make, body, max_paths=max_paths, budget_s=budget_s)
     it = view.q
     if setup.content == "sym":
